@@ -156,7 +156,10 @@ def handle : Handler
       let g := graphOf n ip.toArray ix.toArray dt.toArray sl.toArray ow.toArray iw.toArray
       match refineCore g (f32 res) lab coreFuel { refined := refd, outCl := oc, inCl := ic, cw := cw } rands with
       | none => some "fuel"
-      | some (l, rest) => some s!"ok {showList l} {rest.length}") "bad-args"
+      | some (l, rest) =>
+        -- third figure: 1 when the kernel's bound on the passes (n + 1) is what ended the loop
+        let capped := (refineLoop g (f32 res) lab (n + 1) { refined := refd, outCl := oc, inCl := ic, cw := cw } rands).isNone
+        some s!"ok {showList l} {rest.length} {showBool capped}") "bad-args"
   -- Louvain.fit / Leiden.fit in exact arithmetic:
   -- <kind> <res> <tolOpt> <tolAgg> <nAgg> <nRow> <nCol> <indptr> <indices> <data> <forceBip> [<rands>]
   | "c06.louvain", [kind, res, tolO, tolA, nAgg, n, m, ip, ix, dt, fb] => some <| Option.getD (do
